@@ -4,7 +4,8 @@ from vlib import core, coord_common
 MODS = ['S4V.Props.C06', 'S4V.Props.CoordSpec']
 LEVEL_NOTE = ("Proved: the coordinator's output for every schedule is merge(scripts) (confluence), and merge keeps each source's order "
               "(merge_per_source), always emits a minimum over all current heads with lower PathIds strictly later (minHead_spec), is sorted when every source "
-              "is (merge_sorted) and orders equal instants by PathId (merge_ties). Instants are Int nanoseconds, as DateTime<FixedOffset>::cmp compares. "
+              "is (merge_sorted) and orders equal instants by PathId (merge_ties). Instants are Int nanoseconds, as DateTime<FixedOffset>::cmp compares; that the source picks with `iter_mut().min_by(|x, y| x.1.0.dt().cmp(y.1.0.dt()))` over a BTreeMap keyed "
+              "by PathId is re-read from processing_loop on every run (gen_coord.py; C01_pick_matches_source; any other picker/comparator fails the translation). "
               "Tied to the code by trace replay under delay plans and by comparing the binary's output on tie-heavy multi-source inputs, in shuffled argument "
               "order, with the reference merge. Directory order: C15.")
 ASSUME = ["Iterator::min_by returns the first of several equal minima; BTreeMap iterates in key (PathId) order",
@@ -24,7 +25,7 @@ def check(ctx):
     def extra(c):
         return [coord_common.trace_correspondence(c, state.get('cases', []))]
 
-    return core.standard_check(ctx, ['Consts'], MODS, [], oracle, LEVEL_NOTE, ASSUME, extra_corr_fn=extra)
+    return core.standard_check(ctx, ['Consts', 'Coord'], MODS, [], oracle, LEVEL_NOTE, ASSUME, extra_corr_fn=extra)
 
 
 def replay(ctx, data):
